@@ -329,6 +329,10 @@ func genCase(r *core.Rng) *Case {
 		}
 		c.Ops = append(c.Ops, o)
 	}
+	var pending []pendingRep
+	if (c.Kind == "dense" || c.Kind == "sparse") && r.Chance(1, 2) {
+		lengthProbe(r, c)
+	}
 	ow := make([]int, len(opWeights))
 	for i := range opWeights {
 		ow[i] = opWeights[i].w
@@ -460,6 +464,18 @@ func genCase(r *core.Rng) *Case {
 			continue
 		}
 		c.Ops = append(c.Ops, o)
+		// repeat modifier: re-issue a status op 1-3 times at once and once more a few ops later, through the same or
+		// another issuer (a rejected operation must stay rejected and must not wear the object down)
+		if isStatusOp(o.Op) && o.Op != "seal" && o.Op != "freeze" && r.Chance(1, 4) {
+			for k := r.Range(1, 3); k > 0 && len(c.Ops) < n; k-- {
+				c.Ops = append(c.Ops, repeatOf(r, c, &o))
+			}
+			pending = append(pending, pendingRep{at: len(c.Ops) + r.Range(2, 4), op: o})
+		}
+		for len(pending) > 0 && pending[0].at <= len(c.Ops) && len(c.Ops) < n {
+			c.Ops = append(c.Ops, repeatOf(r, c, &pending[0].op))
+			pending = pending[1:]
+		}
 	}
 	// issuers of the prelude ops
 	for i := range c.Ops {
@@ -526,4 +542,80 @@ func twinOps(c *Case) []Op {
 		}
 	}
 	return ops
+}
+
+type pendingRep struct {
+	at int
+	op Op
+}
+
+// repeatOf copies an op, re-drawing its issuer.
+func repeatOf(r *core.Rng, c *Case, o *Op) Op {
+	cp := *o
+	cp.Rep = true
+	var ok []string
+	for _, iss := range issuers[cp.Op] {
+		if issuerOK(&cp, iss) {
+			trial := cp
+			trial.Iss = iss
+			if !excluded(c, &trial) {
+				ok = append(ok, iss)
+			}
+		}
+	}
+	if cp.Op == "setProto" && !isObjectValue(cp.Val) && cp.Val != "n" {
+		ok = []string{"object", "reflect"}
+	}
+	if len(ok) > 0 {
+		cp.Iss = core.Pick(r, ok)
+	}
+	if cp.Iss == "go" {
+		cp.Num = false
+	} else if cp.Key != "" && keyByName[cp.Key].num {
+		cp.Num = r.Bool()
+	}
+	return cp
+}
+
+// lengthProbe appends, for array kinds, a non-configurable data or accessor element and repeated length writes
+// below / at / just above it (ArraySetLength must stop at the element every time).
+func lengthProbe(r *core.Rng, c *Case) {
+	type probe struct{ key, below, at, above string }
+	p := core.Pick(r, []probe{{"1", "0", "1", "2"}, {"2", "0", "2", "3"}, {"7", "2", "7", "8"}, {"5000", "7", "5000", "5001"}})
+	for _, k := range []string{p.key, "length"} {
+		have := false
+		for _, x := range c.Keys {
+			have = have || x == k
+		}
+		if !have {
+			c.Keys = append(c.Keys, k)
+		}
+	}
+	el := Op{Op: "define", Obj: "T", Key: p.key, Num: r.Bool()}
+	if r.Chance(2, 3) {
+		el.Mask, el.Val, el.Flags = 1|2|16|32, core.Pick(r, []string{"1", "sa", "V1"}), r.Intn(4) // data, configurable: false
+	} else {
+		el.Mask, el.Get, el.Set, el.Flags = 4|8|16|32, "G1", core.Pick(r, []string{"St1", "u"}), r.Intn(4)&2
+	}
+	el.Iss = core.Pick(r, []string{"object", "reflect", "objects", "go"})
+	if el.Iss == "go" {
+		el.Num = false
+	}
+	c.Ops = append(c.Ops, el)
+	if r.Chance(1, 3) {
+		// a second descriptor-valued element below
+		c.Ops = append(c.Ops, Op{Op: "define", Obj: "T", Key: "0", Mask: 1 | 2 | 16 | 32, Val: "2", Flags: core.Pick(r, []int{2, 6, 7}), Iss: core.Pick(r, []string{"object", "reflect"})})
+	}
+	for k := r.Range(2, 4); k > 0; k-- {
+		v := core.Pick(r, []string{p.below, p.below, p.at, p.at, p.above, "0"})
+		var o Op
+		if r.Chance(2, 3) {
+			o = Op{Op: "set", Obj: "T", Key: "length", Val: v, Iss: core.Pick(r, []string{"js", "jss", "reflect", "go"})}
+		} else {
+			o = Op{Op: "define", Obj: "T", Key: "length", Mask: 1, Val: v, Iss: core.Pick(r, []string{"object", "reflect", "objects", "go"})}
+		}
+		if !excluded(c, &o) {
+			c.Ops = append(c.Ops, o)
+		}
+	}
 }
